@@ -770,6 +770,13 @@ class RectifyMetadata(WBase):
     qualname = "RTDCWriter.rectify_metadata"
     params = ("self",)
 
+    def __init__(self, certain="deform"):
+        # the feature that is certainly stored: "deform" sorts before every optional one, "volume" after "trace"
+        # (the trace group is then the first entry of the events group)
+        self.certain = certain
+        super().__init__()
+        self.name = f"RTDCWriter.rectify_metadata[{certain} stored]"
+
     def inputs(self, ctx):
         N = ctx.int("N", lo=1, inp=True)
         h, w, S = ctx.int("h", lo=1), ctx.int("w", lo=1), ctx.int("S", lo=1)
@@ -783,7 +790,7 @@ class RectifyMetadata(WBase):
                  "trace": (flags["trace"], tr)}
         for c in ("fl1_max", "fl2_max", "fl3_max"):
             maybe[c] = (flags[c], mk("F", c))
-        events = new_group(ctx, members={"deform": mk("F", "deform")}, maybe=maybe, name="/events")
+        events = new_group(ctx, members={self.certain: mk("F", self.certain)}, maybe=maybe, name="/events")
         has_cc = ctx.bool("has_channel_count", inp=True)
         cc0 = ctx.int("channel_count0")
         attrs = new_attrs(ctx, d={"experiment:event count": ctx.int("stale_count")},
@@ -822,7 +829,7 @@ class RectifyMetadata(WBase):
         return posts
 
 
-UNITS += [RectifyMetadata()]
+UNITS += [RectifyMetadata(), RectifyMetadata("volume")]
 
 
 class MaskGetitem(Contract):
